@@ -116,6 +116,16 @@ CLAIMED.update({
         note='Trusted: CBMC; the SQLite transaction model of stubs/sqlite_model.h (meaning of commit / rollback assumed).', ref='5/C06'),
 })
 
+CLAIMED.update({
+    'C05': dict(
+        text='Partial: cif_container_create_loop_internal (names loop closed by an invariant), cif_pktitr_update_packet and cif_pktitr_remove_packet are proved, over a ghost '
+             'model of SQLite transactions with a savepoint stack, to undo on every error return exactly the writes they stepped - nothing durable, the enclosing '
+             'transaction still open with its writes and savepoints - and never to COMMIT / ROLLBACK an enclosing transaction. Table content (what each SQL statement '
+             'does) is SQLite\'s and not decided; the other mutators are not under contract yet.',
+        note='Trusted: CBMC; the SQLite model of stubs/sqlite_model.h (meaning of savepoint / release / rollback to / commit / rollback assumed); cif_u_strdup, cif_loop_free, '
+             'cif_loop_get_category by assumed contract.', ref='5/C05'),
+})
+
 NOT_APPLICABLE = {
     'C04': 'The abstract state (tables, keys, cascades, triggers) and every transition are SQL text interpreted by SQLite at run time; a C-level '
            'contract can only say that the SQL string was handed to SQLite. A relational contract per statement would be a hand-written model '
